@@ -85,7 +85,7 @@ def run_cases(mod, tier, seed, shard, nshards, deadline):
         sig = out.get("sig")
         if sig is not None:
             for s in (sig if isinstance(sig, (list, tuple, set)) else [sig]):
-                sigs.add(s)
+                sigs.add(str(s))
         merge_stats(res["stats"], out.get("stats", {}))
         if out.get("sample") is not None and len(res["samples"]) < MAX_SAMPLES:
             res["samples"].append(out["sample"])
@@ -93,7 +93,7 @@ def run_cases(mod, tier, seed, shard, nshards, deadline):
             v = dict(v)
             v["case"] = case
             res["violations"].append(v)
-    res["sigs"] = sorted(sigs)
+    res["sigs"] = sorted(str(x) for x in sigs)
     return res
 
 
